@@ -200,36 +200,102 @@ func checkC05(c *Ctx, r *Report) {
 		r.Check(len(bad) == 0, "C05.R2", "a coalesced caller never keeps the shared data handle", c.InstrPos(do), "with shared==true all cached returns pass Close(shared Data) and a fresh Get that replaces Cached.Entry (or fetch directly)", strings.Join(uniq(bad), "; "))
 	}
 
-	// R3
-	nRet := 0
-	eachInstr(g, func(in ssa.Instruction) {
-		ret, ok := in.(*ssa.Return)
-		if !ok || isRecoverReturn(ret) {
-			return
+	// R3 (over getFromCacheOrFetch and the helpers it was split into)
+	grp := pkgGroup(li, g)
+	inGrp := map[*ssa.Function]bool{}
+	for _, h := range grp {
+		inGrp[h] = true
+	}
+	// only functions that produce a fetchResult are of interest
+	producesResult := func(h *ssa.Function) bool {
+		res := h.Signature.Results()
+		return res.Len() == 2 && strings.HasSuffix(res.At(0).Type().String(), "proxy.fetchResult") && res.At(1).Type().String() == "error"
+	}
+	nRet, nDirect := 0, 0
+	for _, h := range grp {
+		if !producesResult(h) || h.Parent() != nil {
+			continue
 		}
-		vals := retVals(ret)
-		if len(vals) != 2 || !isNilConst(vals[1]) {
-			return
+		// functions that themselves start an upstream fetch and hand back its raw result are the producers
+		// whose result must be filtered by the callers; they are not part of the "what leaves the closure" set
+		hk := fnKey(h)
+		if hk == fetcherT+"fetchUpstream" || hk == fetcherT+"fetchDirectlyFromUpstream" || hk == fetcherT+"handleCacheMiss" {
+			continue
 		}
-		nRet++
-		key := fmt.Sprintf("getFromCacheOrFetch: success return #%d is a cached result", nRet)
-		v := vals[0]
-		fsx := factStrs(g, ret)
-		switch x := resolveVal(v).(type) {
-		case *ssa.Extract:
-			// result of handleCacheMiss / fetchUpstream: must be on the Type != Direct side
-			ok := false
+		eachInstr(h, func(in ssa.Instruction) {
+			ret, ok := in.(*ssa.Return)
+			if !ok || isRecoverReturn(ret) {
+				return
+			}
+			vals := retVals(ret)
+			fsx := factStrsCtx(li, h, ret)
+			directSide := false
 			for k := range fsx {
-				if strings.HasSuffix(k, ".Type==1=false") || strings.HasSuffix(k, ".Type==0=true") {
-					ok = true
+				if strings.HasSuffix(k, ".Type==1=true") {
+					directSide = true
 				}
 			}
-			r.Check(ok, "C05.R3", key, c.InstrPos(ret), "on the Type != fetchTypeDirect edge", "a direct (single-use) upstream response can be returned out of the coalescing closure and be shared between clients: "+strings.Join(keysOf(fsx), " ∧ "))
-		default:
-			// locally built result: Type field must be the cached constant (0 / not set)
+			if directSide {
+				nDirect++
+				isNC := false
+				if u, ok := vals[1].(*ssa.UnOp); ok {
+					if gl, ok := u.X.(*ssa.Global); ok && gl.Name() == "ErrNotCacheable" {
+						isNC = true
+					}
+				}
+				closed := mustPassBeforeFrom(h, ret, func(in2 ssa.Instruction) bool {
+					x, ok := in2.(*ssa.Call)
+					if !ok || !x.Call.IsInvoke() || x.Call.Method.Name() != "Close" {
+						return false
+					}
+					_, p := fieldPath(x.Call.Value)
+					return len(p) >= 3 && strings.Join(p[len(p)-3:], ".") == "Direct.Response.Body"
+				})
+				r.Check(isNC && closed, "C05.R3", fmt.Sprintf("%s: direct result #%d is closed and reported as ErrNotCacheable", fnKey(h), nDirect), c.InstrPos(ret), "Body.Close() then ErrNotCacheable", "a direct upstream response is neither closed nor converted to ErrNotCacheable inside the coalescing closure")
+				return
+			}
+			if len(vals) != 2 || !isNilConst(vals[1]) {
+				return
+			}
+			nRet++
+			key := fmt.Sprintf("%s: success return #%d is a cached result", fnKey(h), nRet)
+			v := resolveVal(vals[0])
+			if ex, isEx := v.(*ssa.Extract); isEx {
+				if call, isCall := ex.Tuple.(*ssa.Call); isCall {
+					delegated := false
+					for _, cal := range li.Callees[call] {
+						ck := fnKey(cal)
+						if inGrp[cal] && ck != fetcherT+"fetchUpstream" && ck != fetcherT+"fetchDirectlyFromUpstream" && ck != fetcherT+"handleCacheMiss" {
+							delegated = true
+						}
+					}
+					if delegated {
+						r.OkT("C05.R3", key, c.InstrPos(ret), "result of a helper of the same group, checked there")
+						return
+					}
+				}
+				ok := false
+				for k := range fsx {
+					if strings.HasSuffix(k, ".Type==1=false") || strings.HasSuffix(k, ".Type==0=true") {
+						ok = true
+					}
+				}
+				r.Check(ok, "C05.R3", key, c.InstrPos(ret), "on the Type != fetchTypeDirect edge", "a direct (single-use) upstream response can be returned out of the coalescing closure and be shared between clients: "+strings.Join(keysOf(fsx), " ∧ "))
+				return
+			}
+			if prm, isP := v.(*ssa.Parameter); isP {
+				_ = prm
+				ok := false
+				for k := range fsx {
+					if strings.HasSuffix(k, ".Type==1=false") || strings.HasSuffix(k, ".Type==0=true") {
+						ok = true
+					}
+				}
+				r.Check(ok, "C05.R3", key, c.InstrPos(ret), "parameter returned only on the Type != fetchTypeDirect edge", "a helper hands a possibly direct (single-use) result back unchanged")
+				return
+			}
 			okT := true
-			derivesFrom(v, func(y ssa.Value) bool { return false })
-			if a, isA := resolveValAlloc(v); isA {
+			if a, isA := resolveValAlloc(vals[0]); isA {
 				for _, ref := range *a.Referrers() {
 					if fa, ok := ref.(*ssa.FieldAddr); ok {
 						if fv, _, _ := fieldOf(fa); fv != nil && fv.Name() == "Type" {
@@ -243,46 +309,10 @@ func checkC05(c *Ctx, r *Report) {
 				}
 			}
 			r.Check(okT, "C05.R3", key, c.InstrPos(ret), "locally constructed cached result", "a locally built result with Type != fetchTypeCached is returned from the closure")
-			_ = x
-		}
-	})
-	r.Floor("C05.R3", nRet, 3, "success returns of getFromCacheOrFetch")
-	// direct results are closed and become ErrNotCacheable
-	nDirect := 0
-	eachInstr(g, func(in ssa.Instruction) {
-		ret, ok := in.(*ssa.Return)
-		if !ok || isRecoverReturn(ret) {
-			return
-		}
-		fsx := factStrs(g, ret)
-		isDirectSide := false
-		for k := range fsx {
-			if strings.HasSuffix(k, ".Type==1=true") {
-				isDirectSide = true
-			}
-		}
-		if !isDirectSide {
-			return
-		}
-		nDirect++
-		vals := retVals(ret)
-		isNC := false
-		if u, ok := vals[1].(*ssa.UnOp); ok {
-			if gl, ok := u.X.(*ssa.Global); ok && gl.Name() == "ErrNotCacheable" {
-				isNC = true
-			}
-		}
-		closed := mustPassBeforeFrom(g, ret, func(in2 ssa.Instruction) bool {
-			x, ok := in2.(*ssa.Call)
-			if !ok || !x.Call.IsInvoke() || x.Call.Method.Name() != "Close" {
-				return false
-			}
-			_, p := fieldPath(x.Call.Value)
-			return len(p) >= 3 && strings.Join(p[len(p)-3:], ".") == "Direct.Response.Body"
 		})
-		r.Check(isNC && closed, "C05.R3", fmt.Sprintf("getFromCacheOrFetch: direct result #%d is closed and reported as ErrNotCacheable", nDirect), c.InstrPos(ret), "Body.Close() then ErrNotCacheable", "a direct upstream response is neither closed nor converted to ErrNotCacheable inside the closure")
-	})
-	r.Floor("C05.R3", nDirect, 2, "direct-result branches in getFromCacheOrFetch")
+	}
+	r.Floor("C05.R3", nRet, 2, "success returns of the cache-or-fetch group")
+	r.Floor("C05.R3", nDirect, 1, "direct-result branches in the cache-or-fetch group")
 	// dedupFetch fallbacks use the caller's own request
 	nFb := 0
 	for _, fc := range findCalls(f, fetcherT+"fetchDirectlyFromUpstream") {
@@ -372,9 +402,52 @@ func checkC06(c *Ctx, r *Report) {
 			}
 			derivesFrom(args[2], func(v ssa.Value) bool {
 				root, p := fieldPath(v)
-				if len(p) >= 3 && strings.Join(p[len(p)-3:], ".") == "Metadata.Object."+want {
-					if e, ok := resolveVal(root).(*ssa.Extract); ok && get != nil && e.Tuple == ssa.Value(get) {
+				if len(p) >= 1 && p[len(p)-1] == want && (len(p) < 3 || strings.Join(p[len(p)-3:], ".") == "Metadata.Object."+want) {
+					rr := resolveVal(root)
+					// follow an alias like `validators := &stale.Metadata.Object`
+					if fa, isFA := rr.(*ssa.FieldAddr); isFA {
+						r2, p2 := fieldPath(fa)
+						if len(p2) >= 2 && strings.Join(p2[len(p2)-2:], ".") == "Metadata.Object" {
+							rr = resolveVal(r2)
+						}
+					}
+					if e, ok := rr.(*ssa.Extract); ok && get != nil && e.Tuple == ssa.Value(get) {
 						okSrc = true
+					}
+					// the entry is a parameter: every caller passes the result of its own cache lookup
+					if prm, ok := rr.(*ssa.Parameter); ok {
+						idx := -1
+						for i, q := range f.Params {
+							if q == prm {
+								idx = i
+							}
+						}
+						cs := li.Callers[f]
+						all := len(cs) > 0
+						for _, site := range cs {
+							call, okc := asCall(site.in)
+							if !okc {
+								all = false
+								break
+							}
+							a := callArgs(call)
+							if idx >= len(a) {
+								all = false
+								break
+							}
+							e, okE := resolveVal(a[idx]).(*ssa.Extract)
+							if !okE {
+								all = false
+								break
+							}
+							gc, okG := e.Tuple.(*ssa.Call)
+							if !okG || calleeName(gc) != "("+cachePkg+".Cache).Get" {
+								all = false
+							}
+						}
+						if all {
+							okSrc = true
+						}
 					}
 				}
 				return false
